@@ -8,8 +8,9 @@ Page-based counters during pagination: mirror of
 The laid-out page is abstract: it is the list of what `page.descendants(placeholders=True)` shows to the
 loop — for every box its `anchor` and the `(missing_link, 'content')` lookup item, if any.
 
-Python failure points are explicit: `item.page_maker_index` on a missing target (`AttributeError`),
-`None >= 0` (`TypeError`), `page_maker[i]` out of range (`IndexError`).
+Python failure points are explicit: `item.page_maker_index` on a missing target (`AttributeError`; the
+former `None >= 0` TypeError and the `page_maker[i]` IndexError are gone with da41776, the constructors
+stay for the line protocol).
 No Mathlib, no Std: linked into the compiled driver.
 -/
 import WpModel.Model.Wire
@@ -125,23 +126,24 @@ def cacheTarget (st : PState) (anchor : String) (pcv : Vals) (pageIndex : Nat) :
         let st := { st with targets := tset st.targets anchor item' }
         if changed then spread anchor pcv 0 st.lookups st else st
 
-/-- Step 3 of the loop body: targeted `pages` counters. -/
-def step3Targets (cachedAnchors : List String) : List (String × List String) → PState → Except PErr PState
+/-- Step 3 of the loop body: targeted `pages` counters.  Since da41776 the page of the target is marked
+`pages_wanted` whenever it is known (`page_maker_index is not None`) and still exists
+(`< len(page_maker)`), for forward and backward references alike; before, `None >= 0` raised TypeError
+for a target on a later page and the mark was given only to anchors already cached. -/
+def step3Targets : List (String × List String) → PState → Except PErr PState
   | [], st => .ok st
   | (anchorName, missed) :: rest, st =>
-    if !missed.contains "pages" then step3Targets cachedAnchors rest st
+    if !missed.contains "pages" then step3Targets rest st
     else match tget st.targets anchorName with
       | none => .error .attributeError
       | some item =>
         match item.index with
-        | none => .error .typeError
+        | none => step3Targets rest st
         | some idx =>
-          if cachedAnchors.contains anchorName then
-            if idx < st.pageMaker.length then
-              step3Targets cachedAnchors rest
-                { st with pageMaker := setAt st.pageMaker idx fun r => { r with pagesWanted := true } }
-            else .error .indexError
-          else step3Targets cachedAnchors rest st
+          if idx < st.pageMaker.length then
+            step3Targets rest
+              { st with pageMaker := setAt st.pageMaker idx fun r => { r with pagesWanted := true } }
+          else step3Targets rest st
 
 /-- One box of `page.descendants(placeholders=True)`: its `anchor` and its content lookup item. -/
 structure Event where
@@ -182,14 +184,14 @@ def prepared (cur : Nat) (pcv : Vals) (refresh : Bool) (key : Nat) (l0 : LookupI
   { st with lookups := setAt st.lookups key fun _ => r.1, pageMaker := pm }
 
 /-- The part of the loop body that handles the `(missing_link, 'content')` lookup item `key`. -/
-def lookupBody (cur : Nat) (pcv : Vals) (cachedAnchors : List String) (refresh : Bool) (key : Nat) (st : PState) :
+def lookupBody (cur : Nat) (pcv : Vals) (refresh : Bool) (key : Nat) (st : PState) :
     Except PErr PState :=
   match st.lookups[key]? with
   | none => .ok st
   | some l0 =>
     let r := step12 pcv refresh (placed cur refresh l0)
     -- Step 3: targeted counters
-    match step3Targets cachedAnchors r.1.missingTarget (prepared cur pcv refresh key l0 st) with
+    match step3Targets r.1.missingTarget (prepared cur pcv refresh key l0 st) with
     | .error e => .error e
     | .ok st =>
       .ok (if r.2.1 then
@@ -213,7 +215,7 @@ def eventStep (cur : Nat) (pcv : Vals) (acc : Acc) (e : Event) : Except PErr Acc
     if (acc.st.lookups[key]?).isNone then .ok acc
     else
       let refresh := !acc.cachedLookups.contains key
-      match lookupBody cur pcv acc.cachedAnchors refresh key acc.st with
+      match lookupBody cur pcv refresh key acc.st with
       | .error e => .error e
       | .ok st => .ok { acc with st := st, cachedLookups := if refresh then acc.cachedLookups ++ [key] else acc.cachedLookups }
 
